@@ -96,8 +96,42 @@ func LoadProg(repo string, tests bool, tags string, overlay map[string][]byte) (
 	if len(p.Roots) == 0 {
 		return nil, fmt.Errorf("no module packages loaded from %s", repo)
 	}
+	p.normalise()
 	p.index()
 	return p, nil
+}
+
+// normalise puts every `==` / `!=` comparison of the module into one operand
+// order before any rule looks at it: the constant (or nil) operand on the
+// right. `nil != x`, `"" == s` and `0 == len(v)` mean the same as their usual
+// spelling and must not change a verdict. Only the X/Y pointers of the node are
+// exchanged; node identity (and with it types.Info) is untouched.
+func (p *Prog) normalise() {
+	for _, pkg := range p.ModPkgs() {
+		info := pkg.TypesInfo
+		constLike := func(e ast.Expr) bool {
+			if tv, ok := info.Types[e]; ok && (tv.Value != nil || tv.IsNil()) {
+				return true
+			}
+			// an untyped nil is recorded with the type of the other operand
+			if id, ok := ast.Unparen(e).(*ast.Ident); ok && id.Name == "nil" {
+				if _, isNil := info.Uses[id].(*types.Nil); isNil {
+					return true
+				}
+			}
+			return false
+		}
+		for _, f := range pkg.Syntax {
+			ast.Inspect(f, func(n ast.Node) bool {
+				if be, ok := n.(*ast.BinaryExpr); ok && (be.Op == token.EQL || be.Op == token.NEQ) {
+					if constLike(be.X) && !constLike(be.Y) {
+						be.X, be.Y = be.Y, be.X
+					}
+				}
+				return true
+			})
+		}
+	}
 }
 
 // ModPkgs returns one package per module import path (non-test variant
